@@ -89,6 +89,29 @@ Theorem c15_slot_interval : forall t,
   (pc t = TDone \/ pc t = TRefused \/ pc t = TPost \/ pc t = TSem0 \/ pc t = TSemWait -> holds_slot t = false).
 Proof. exact holds_slot_by_pc. Qed.
 
+(** A task function that panics (label [LBodyPanic]; Stopper built with an
+    OnPanic handler) is covered by the statement above like one that returns:
+    the deferred [<-sem] and runPostlude run, after which the slot is free
+    again and a further call with wait=false is admitted. *)
+Definition panic_run : list label :=
+  [LCallTask (KLimited 0 false None); LSemAcquire 0; LCtxCheck 0; LPrelude 0; LBodyBegin 0;
+   LCallTask (KLimited 0 false None); LSemDefault 1;           (* full: ErrThrottled *)
+   LBodyPanic 0; LSemRelease 0; LPostlude 0;
+   LCallTask (KLimited 0 false None); LSemAcquire 2; LCtxCheck 2; LPrelude 2; LBodyBegin 2].
+
+Example c15_panicking_task_releases_slot :
+  exists s, steps (init [1]) panic_run = Some s /\
+            map t_panicked (tasks s) = [true; false; false] /\
+            map pc (tasks s) = [TDone; TRefused; TBody] /\
+            map t_ret (tasks s) = [Some RNil; Some RThrottled; Some RNil] /\
+            map snd (sems s) = [1] /\ num_tasks s = 1%Z /\
+            (exists s1, steps (init [1]) (firstn 10 panic_run) = Some s1 /\
+                        map snd (sems s1) = [0] /\ num_tasks s1 = 0%Z).
+Proof.
+  eexists. split; [vm_compute; reflexivity|]. vm_compute. repeat split.
+  eexists. split; [reflexivity|]. split; reflexivity.
+Qed.
+
 (** No close of a closed channel and no negative WaitGroup counter, whatever
     the number of concurrent Stop and Quiesce callers. *)
 Theorem c15_no_panic : forall caps s l, reachable caps s -> step s l <> Panics.
